@@ -108,6 +108,7 @@ fn generate_variables_struct(
                         .first()
                         .map(|qual| !qual.is_required())
                         .unwrap_or(true),
+                    options,
                     query,
                 );
 
@@ -256,6 +257,7 @@ fn graphql_parser_value_to_literal<'doc, T>(
     value: &graphql_parser::query::Value<'doc, T>,
     ty: TypeId,
     is_optional: bool,
+    options: &GraphQLClientCodegenOptions,
     query: &BoundQuery<'_>,
 ) -> TokenStream
 where
@@ -280,11 +282,24 @@ where
             let i = i.as_i64();
             quote!(#i)
         }
-        Value::Enum(en) => quote!(#en),
+        Value::Enum(en) => match ty.as_enum_id() {
+            // The value of a generated enum is its variant, named like in the enum's definition.
+            Some(enum_id) => {
+                let normalization = options.normalization();
+                let enum_name = normalization.enum_name(query.schema.get_enum(enum_id).name.as_str());
+                let enum_name = Ident::new(&enum_name, Span::call_site());
+                let safe_name = shared::keyword_replace(en.as_ref());
+                let variant = normalization.enum_variant(safe_name.as_ref());
+                let variant = Ident::new(&variant, Span::call_site());
+
+                quote!(#enum_name::#variant)
+            }
+            None => quote!(#en),
+        },
         Value::List(inner) => {
             let elements = inner
                 .iter()
-                .map(|val| graphql_parser_value_to_literal(val, ty, false, query));
+                .map(|val| graphql_parser_value_to_literal(val, ty, false, options, query));
             quote! {
                 vec![
                     #(#elements,)*
@@ -293,7 +308,7 @@ where
         }
         Value::Object(obj) => ty
             .as_input_id()
-            .map(|input_id| render_object_literal(obj, input_id, query))
+            .map(|input_id| render_object_literal(obj, input_id, options, query))
             .unwrap_or_else(|| {
                 quote!(compile_error!(
                     "Object literal on a non-input-object field."
@@ -312,6 +327,7 @@ where
 fn render_object_literal<'doc, T>(
     object_map: &BTreeMap<T::Value, graphql_parser::query::Value<'doc, T>>,
     input_id: InputId,
+    options: &GraphQLClientCodegenOptions,
     query: &BoundQuery<'_>,
 ) -> TokenStream
 where
@@ -335,6 +351,7 @@ where
                         default_value,
                         r#type.id,
                         r#type.is_optional(),
+                        options,
                         query,
                     );
                     quote!(#field_name: #value)
